@@ -21,10 +21,18 @@ def build_fe_native():
     open(os.path.join(dst, 'Cargo.toml'), 'w').write(txt)
     shutil.copy(os.path.join(src, 'src', 'main.rs'), os.path.join(dst, 'src'))
     shutil.copy(os.path.join(harness.REPO, 'Cargo.lock'), dst)
-    td = os.path.join(harness.WORK, 'fe-native-target')
-    r = harness.sh(['cargo', 'build', '--offline', '--target-dir', td], cwd=dst, timeout=1200)
-    if r.returncode != 0: raise Unsupported('cannot build the native front-end replay crate: ' + r.stderr[-1500:])
-    return os.path.join(td, 'debug', 'fe_native')
+    td = os.path.join(harness.WORK, 'fe-native-target'); os.makedirs(td, exist_ok=True)
+    import fcntl
+    with open(os.path.join(harness.WORK, 'fe-native-build.lock'), 'w') as lf:
+        fcntl.flock(lf, fcntl.LOCK_EX)
+        dg = harness.refresh_target(td, crates=('lelwel', 'fe_native'))     # see harness.refresh_target: never trust mtimes
+        r = harness.sh(['cargo', 'build', '--offline', '--target-dir', td], cwd=dst, timeout=1200)
+        if r.returncode != 0: raise Unsupported('cannot build the native front-end replay crate: ' + r.stderr[-1500:])
+        harness.stamp_target(td, dg)
+        # private copy named after the source tree, so that a build for another checkout cannot swap it under a running check
+        out = os.path.join(harness.WORK, 'bin', 'fe_native-' + dg[:16]); os.makedirs(os.path.dirname(out), exist_ok=True)
+        shutil.copy2(os.path.join(td, 'debug', 'fe_native'), out + '.tmp%d' % os.getpid()); os.replace(out + '.tmp%d' % os.getpid(), out)
+    return out
 
 def fe_native_run(exe, lines):
     r = subprocess.run([exe], input='\n'.join(lines) + '\n', capture_output=True, text=True, timeout=300)
@@ -443,6 +451,7 @@ def finish(t, sd, t0, N, NS, paths, spaths, steps, queries, stime, fns, mods, vi
                functions_encoded=sorted(fns), std_models=sorted(mods),
                witnesses_not_producible_by_the_real_lexer=unlexable, native_sema_panics_or_bad_spans_on_validated_witnesses=sema_panics,
                inconclusive=inconc[:40], engine_native_mismatches=mism[:20], known_findings_hit=known_hits, violations_reported=reported)
+    cov['built_from'] = dict(harness.LLW_INFO) or dict(repo=harness.REPO, source_digest=harness.source_digest())   # which source tree this run compiled
     ev = dict(property_id='C12', tier=t, seed=sd, level='model_checking', coverage=cov, wall_s=round(time.time() - t0, 2), violations=reported,
               assumptions=['PARTIAL: the logos lexer (tokenize/parse_string/parse_block_comment) is intercepted, SemanticPass::run is not executed symbolically',
                            'parser stage: token i occupies bytes [b_i, b_{i+1}) with symbolic boundaries 0 = b_0 < b_1 < .. < b_n = text length (gapless lexer); a span end point must be a boundary or lie inside a token of an ASCII-only kind (all kinds except ' + ', '.join(MB_KINDS) + ')',
